@@ -9,7 +9,7 @@ import (
 
 // Run is the C07 check: reference-implementation monitor over alias-probe programs.
 func Run(c *core.Ctx) int {
-	n := c.N(40, 600)
+	n := c.N(40, 300)
 	var mu sync.Mutex
 	programs, lines, probes := 0, 0, 0
 	distinct := map[string]bool{}
